@@ -46,7 +46,7 @@ func builtinStringCharAt(call FunctionCall) Value {
 	checkObjectCoercible(call.runtime, call.This)
 	idx := int(call.Argument(0).number().int64)
 	chr := stringAt(call.This.object().stringValue(), idx)
-	if chr == utf8.RuneError {
+	if chr == stringAtNone {
 		return stringValue("")
 	}
 	return stringValue(string(chr))
@@ -56,7 +56,7 @@ func builtinStringCharCodeAt(call FunctionCall) Value {
 	checkObjectCoercible(call.runtime, call.This)
 	idx := int(call.Argument(0).number().int64)
 	chr := stringAt(call.This.object().stringValue(), idx)
-	if chr == utf8.RuneError {
+	if chr == stringAtNone {
 		return NaNValue()
 	}
 	return uint16Value(uint16(chr))
